@@ -9,6 +9,7 @@ import trace
 from common import CheckError
 
 LEVEL = "exploration"
+KNOWN_ELLIPSOID = "ellipsoid:converged:gap>10eps:epsilon<=5e-8:warm-start<=1e-2"
 SPECDIR = os.path.join(common.SPEC, "bundle")
 
 
@@ -43,6 +44,14 @@ def run(rep, tier):
         crashed = rc != 0 or not rs or rs[-1].get("case") != -1
         bad = [x for x in rs if x["e"] in ("Abort", "Timeout")]
         rs = [x for x in rs if x["e"] not in ("Abort", "Timeout")]
+        # the recorded finding: the ellipsoid method with a tight epsilon and a start very close to the minimiser (reported separately;
+        # every other clause of those records is still validated)
+        known = []
+        for x in rs:
+            if (x["e"] == "Sharp" and x["solver"] == "ellipsoid" and x["status"] == "converged" and not x["gapOK"]
+                    and x.get("eps_e12", 10 ** 9) <= 50000 and x.get("dist_e6", 4 * 10 ** 6) <= 10 ** 4):
+                known.append(dict(x))
+                x["gapOK"] = True
         # executions: a BInit starts a bundle history; Sharp records are independent
         groups, cur = [], []
         for x in rs:
@@ -53,12 +62,15 @@ def run(rep, tier):
         if cur:
             groups.append(cur)
         acc, rejects = validate_groups(groups, out + ".tlc", "c03_%d" % i)
-        return crashed, o, bad, acc, rejects, rs
+        return crashed, o, bad, acc, rejects, rs, known
 
     with ThreadPoolExecutor(nproc) as ex:
         results = list(ex.map(drive, range(nproc)))
     total = nsteps = nconv = nagg = 0
-    for crashed, o, bad, acc, rejects, rs in results:
+    for crashed, o, bad, acc, rejects, rs, known in results:
+        for kf in known[:1]:
+            rep.violation("ellipsoid reports converged with a gap above 10 epsilon (tight epsilon, warm start): %s" % kf, payload=kf, signature=KNOWN_ELLIPSOID)
+    for crashed, o, bad, acc, rejects, rs, known in results:
         if crashed:
             rep.violation("bundle driver crashed (heap overflow / abort?)", payload={"output": o[-3000:]})
         for b in bad[:3]:
